@@ -33,6 +33,32 @@ def lowpat(n, ents):
     for (i, j) in ents: p |= 1 << (i + j * n)
     return p
 
+COMPONENTS = {'iso': (1, []), 'edge': (2, [(0, 1)]), 'path3': (3, [(0, 1), (1, 2)]), 'path4': (4, [(0, 1), (1, 2), (2, 3)]),
+              'star4': (4, [(0, 1), (0, 2), (0, 3)]), 'tri': (3, [(0, 1), (1, 2), (0, 2)]), 'k4': (4, [(0, 1), (0, 2), (0, 3), (1, 2), (1, 3), (2, 3)])}
+def zoo_query(pid, n, rnd, ispec, k):
+    """symmetric-structure n x n pattern (full diagonal) whose graph is a disjoint union of small components, vertices relabelled at random"""
+    names = sorted(COMPONENTS)
+    comp, left = [], n
+    while left > 0:
+        c = rnd.choice([c for c in names if COMPONENTS[c][0] <= left])
+        comp.append(c); left -= COMPONENTS[c][0]
+    if k % 4 == 0:      # make sure isolated vertices next to larger components occur often
+        comp = ['iso', 'path3', 'tri'] + (['iso'] if n == 8 else [])
+    lab = list(range(n)); rnd.shuffle(lab)
+    ents, base = [], 0
+    for c in comp:
+        sz, es = COMPONENTS[c]
+        ents += [(lab[base + a], lab[base + b]) for (a, b) in es]
+        base += sz
+    pat = 0
+    for i in range(n): pat |= 1 << (i + i * n)
+    for (i, j) in ents: pat |= (1 << (i + j * n)) | (1 << (j + i * n))
+    q = perm_query(pid, n, n, pat, ispec)
+    q.name += '.zoo%d' % k
+    q.group = 'get_perm_c n=7..8, concrete component graphs (%s)' % ('MMD on A^T*A' if ispec == 1 else 'MMD on A^T+A')
+    q.witness = (k % 10 == 0)
+    return q
+
 def colorder_query(pid, n, pat, sym, maxsup=4, timeout=900):
     return Query('%s.colorder.n%d.p%x.sym%d.ms%d' % (pid, n, pat, sym, maxsup), 'ord_h.c', ORD_SRCS,
                  defs={'MODE': 2, 'N': n, 'PAT': hex(pat), 'SYM': sym, 'VH_MAXSUP': maxsup}, engine='sat', unwind=4 * n + 6,
@@ -50,6 +76,12 @@ def plan(tier, seed, pid='C10', sym_only=False):
         if tier != 'thorough':
             shapes3 = rnd.sample(shapes3, 60)
         qs += [perm_query(pid, m, n, p, o) for (m, n, p, o) in sorted(shapes3)]
+    if not sym_only:
+        # larger instances with concrete structure (decided by constant propagation in the symbolic executor): graphs made of
+        # components -- isolated vertices, edges, paths, stars, triangles, cliques -- under random relabelling, n = 7..8 (the pattern is a 64-bit mask)
+        for k in range(40 if tier != 'thorough' else 400):
+            n = 7 + k % 2
+            qs.append(zoo_query(pid, n, rnd, 1 + k % 2, k))
     for sym in ((1,) if sym_only else (0, 1)):
         for pat in range(16):
             qs.append(colorder_query(pid, 2, pat, sym, 1 + pat % 3))
@@ -75,7 +107,7 @@ def plan(tier, seed, pid='C10', sym_only=False):
 META = {
     'level': 'model_checking',
     'engines': 'E1: cbmc 6.11 bit-precise, MiniSat',
-    'bounds': {'get_perm_c': 'options 0..2 (natural, MMD on A^T*A, MMD on A^T+A); every m x n pattern with m,n <= 2 and (quick: 90 sampled, thorough: all) patterns with m,n <= 3 incl. rectangular, empty rows/columns',
+    'bounds': {'get_perm_c': 'options 0..2 (natural, MMD on A^T*A, MMD on A^T+A); every m x n pattern with m,n <= 2 and (quick: 60 sampled, thorough: all) patterns with m,n <= 3 incl. rectangular, empty rows/columns; plus 40 (thorough 400) concrete n=7..8 graphs built from isolated vertices, edges, paths, stars, triangles, cliques under random relabelling',
                'sp_colorder': 'n<=4 with the input permutation symbolic (all n! bijections in one query): n=2 all patterns, n=3 quick 8 sampled per mode / thorough all 512, n=4 six forests (two-child parent, chain, star, isolated columns; thorough + all 64 lower patterns); n=5 with 4 concrete permutations on 40 (thorough 1024) full-diagonal patterns; symmetric mode on/off, max supernode size 1..5; in symmetric mode the reported counts equal the Cholesky column counts and reported supernodes nest'},
     'outside': ['option 3 (COLAMD): colamd.c carves its Row/Col records out of one int array by casts; symbolic execution of even a 2x2 instance did not finish in 600 s, so colamd.c is NOT encoded and nothing is claimed about it', 'n > 3', 'METIS orderings (not in this build)'],
     'assumptions': ['reference elimination tree computed in the harness by quadratic symbolic Cholesky on the boolean structure'],
